@@ -113,6 +113,8 @@ type Machine struct {
 	syncMaps  map[*Value]*Map
 	digests   map[*Value]*[]*sym.Term
 	i53ok     map[int]bool
+	curInstr  ssa.Instruction
+	curFrame  *frame
 }
 
 type ufApp struct {
@@ -420,7 +422,14 @@ func (m *Machine) check(c *sym.Term, id string, pos string) {
 // goPanic builds a Go run-time panic value.
 func (m *Machine) goPanic(msg string) targetPanic {
 	msg = strings.TrimPrefix(msg, "runtime error: ")
-	return targetPanic{v: Iface{T: m.W.runtimeErrorString, V: Str{S: msg}}}
+	pos := ""
+	if m.curInstr != nil && m.curFrame != nil {
+		pos = m.position(m.curInstr.Pos()) + " in " + m.curFrame.fn.String()
+		if f := m.curFrame.caller; f != nil {
+			pos += " <- " + f.fn.String()
+		}
+	}
+	return targetPanic{v: Iface{T: m.W.runtimeErrorString, V: Str{S: msg}}, pos: pos}
 }
 
 func (m *Machine) position(p token.Pos) string {
